@@ -94,6 +94,8 @@ def cases(ctx):
         c = dict(c, msg=gen.jsonable(m), widened=tags)
         yield c
     yield from msgwork.edited_config_cases(ctx, cids, encs[:4], 1500 if quick else 30000)
+    if ctx.shard in (1, 2):
+        yield {'class': 'threads', 'threads': 6, 'rounds': 150 if quick else 1500, 'salt': ctx.shard}
     # refusal of unrepresentable values
     i = 0
     for cid in cids[:4]:
@@ -111,9 +113,66 @@ def cases(ctx):
                                'bytes': c.get('field_processor') == 'ICC'}
 
 
+def judge_threads(ctx, case):
+    """dumps called from several threads at once: every thread must get the wire image it gets when alone."""
+    import sys
+    import threading
+    iso = ctx.iso
+    cfgs = [msgwork.cfg_of(c) for c in ('packaged', ['special', 0])]
+    plans = []
+    for t in range(case['threads']):
+        rng = ctx.rng_global('thr', case['salt'], t)
+        cfg = cfgs[t % 2]
+        msgs = [gen.gen_message(rng, cfg, 'latin_1' if t % 3 else 'cp500') for _ in range(12)]
+        want = []
+        for m in msgs:
+            try:
+                want.append(ref.encode(m, cfg, 'latin_1' if t % 3 else 'cp500', bool(t % 2)))
+            except ref.RefError:
+                want.append(None)
+        plans.append((cfg, 'latin_1' if t % 3 else 'cp500', bool(t % 2), msgs, want))
+    bad = []
+    order = []
+    start = threading.Barrier(case['threads'])
+
+    def worker(t):
+        cfg, enc, hexbm, msgs, want = plans[t]
+        start.wait()
+        for r in range(case['rounds']):
+            k = r % len(msgs)
+            if want[k] is None:
+                continue
+            try:
+                got = iso.dumps(dict(msgs[k]), encoding=enc, iso_config=cfg, hex_bitmap=hexbm)
+            except Exception as ex:  # noqa
+                bad.append((t, r, 'exception:' + type(ex).__name__, repr(ex)[:120]))
+                return
+            order.append(t)
+            if got != want[k]:
+                bad.append((t, r, 'bytes_differ:' + diff_class(got, want[k], hexbm), hx(got)[:80]))
+                return
+    old = sys.getswitchinterval()
+    sys.setswitchinterval(1e-6)
+    try:
+        ths = [threading.Thread(target=worker, args=(t,)) for t in range(case['threads'])]
+        for th in ths:
+            th.start()
+        for th in ths:
+            th.join(300)
+    finally:
+        sys.setswitchinterval(old)
+    ctx.case_done(['threads', case['salt']])
+    ctx.count('dumps calls under threads', len(order))
+    ctx.count('thread alternations between consecutive dumps calls', sum(1 for a, b in zip(order, order[1:]) if a != b))
+    for t, r, what, detail in bad[:1]:
+        ctx.violation('encode_under_threads:' + what, {'case': case, 'thread': t, 'round': r, 'detail': detail})
+
+
 def judge(ctx, case):
     if case['class'] == 'refusal':
         return judge_refusal(ctx, case)
+    if case['class'] == 'threads':
+        return judge_threads(ctx, case)
     iso = ctx.iso
     cfg = msgwork.materialise_cfg(ctx, case, iso.dumps)
     msg = gen.unjsonable(case['msg'])
@@ -159,6 +218,27 @@ def judge(ctx, case):
         ctx.violation('decode:' + bad[0], {'case': case, 'wire': hx(want)[:600], 'key': bad[1], 'got': repr(bad[2])[:200],
                                            'want': repr(bad[3])[:200]})
         return
+    # (2b) the dict that loads returned, fed back into dumps (it carries the derived TAGxxxx / ICC_DATA / DE43_* / PDSxxxx
+    # entries next to the elements they came from), must give the same wire image again
+    # (messages with PDS data are left out: a decoded dict holds the PDS entries AND the carriers they came from, and the
+    # documented rule that PDS entries are re-packed into the carriers in ascending order then applies)
+    if not any(k.startswith('PDS') for k in got) and not any('DE%d' % c in got for c in ref.carriers_of(cfg)):
+        kind, again = ctx.call(iso.dumps, dict(got), encoding=enc, iso_config=cfg, hex_bitmap=hexbm, budget=400000)
+        ctx.count('decoded dicts fed back into dumps')
+        second = None
+        if kind == 'ok':
+            try:
+                second = ref.decode_strict(again, cfg, enc, hexbm)
+            except ref.Reject:
+                second = None
+        if kind != 'ok':
+            ctx.violation('reencode_of_decoded_dict:%s' % ('step_budget' if kind == 'steps' else 'exception:' + type(again).__name__),
+                          {'case': case, 'error': repr(again)[:200]})
+            return
+        if again != want and second != expect:
+            ctx.violation('reencode_of_decoded_dict:wire_image_changed:' + diff_class(again, want, hexbm),
+                          {'case': case, 'first': hx(want)[:400], 'second': hx(again)[:400]})
+            return
     if len(ctx.samples) < 4 and 3 <= len(msg) <= 6:
         ctx.sample({'cfg': case['cfg'], 'enc': enc, 'hex_bitmap': hexbm, 'msg': gen.brief(msg), 'wire': hx(want)[:160]})
 
@@ -249,6 +329,10 @@ def require(m):
     c = m['counters']
     if not c.get('class:bit_pairs_exhaustive'):
         reasons.append('bit pairs not enumerated')
+    if not c.get('decoded dicts fed back into dumps'):
+        reasons.append('no decoded dict was fed back into dumps')
+    if c.get('thread alternations between consecutive dumps calls', 0) < 20:
+        reasons.append('threaded dumps did not overlap')
     if not c.get('class:refusal'):
         reasons.append('refusal cases not driven')
     feats = set(m['classes'].get('encode-side spellings', ()))
